@@ -1,190 +1,690 @@
 """C10 — iv_signal: every delivery reaches the interests with documented fan-out.
 
-Fan-out multiplicities over schedules are not decided; the ordering table and
-its readers, and the structural clauses, are.
+Fan-out multiplicities over *schedules* are not decided.  What is decided:
+
+  * behaviour of each entry point of iv_signal.c on a finite family of model
+    worlds (h10.SigMachine: evaluation of the extracted facts over small trees
+    of interests; nothing of the repository is executed): comparator table,
+    lookup + wake walk of the signal handler, pid gate, thread-before-process
+    order, the raw-event handler, register / unregister (disposition edges,
+    counts, tree choice, exclusive hand-off), post-fork reset, atfork hooks;
+  * path properties that need no model (must-pass / lockset analyses on the
+    public roots with every helper of the file inlined).
+
+Functions are found by role, never by name: the signal handler is what
+iv_signal_register passes to sigaction(), the raw-event handler is what it
+stores in ev.handler, the comparator is what is installed in the `compare`
+slot of the trees, the fork hooks are the arguments of pthr_atfork(); file
+scope objects are found by type.  Only the exported API
+(iv_signal_register, iv_signal_unregister, iv_signal_child_reset_postfork,
+iv_wait_interest_register_spawn) and the library primitives are named.
 """
+import functools
 import itertools
-from ..core import (names_of, same_value, AnalysisBroken, Inliner, canon, strip, last_member, must_pass, relpath, norm_cond, walk, forward)
-from ..analyses import (is_call, holding, path_to, describe, exits_of, callback_kind, loops, innermost_loop,
-                        locksets, held, SIGBLOCK, must_pass_from_block, delta_analysis)
-from .. import interp, cmprules
+from ..core import (AnalysisBroken, Inliner, canon, strip, last_member, must_pass, norm_cond, walk, is_int)
+from ..analyses import (is_call, describe, callback_kind, locksets, held, SIGBLOCK, lock_id)
+from .. import cmprules
+from . import h10
+from .h10 import SigMachine, Stuck, Fatal, NonTerm, UNK
 from .c11 import null_rule
 from .c14 import roots_of
 
-SIG = 'sig_lock'
 EXCL = 1          # IV_SIGNAL_FLAG_EXCLUSIVE
 THIS_THREAD = 2   # IV_SIGNAL_FLAG_THIS_THREAD
+PID = 4242
+S = 5             # the delivered signal in the model worlds
 
 
 def run(ctx):
     ctx.rule('R-C10.cmp', 'ordering table: the interest comparator is the lexicographic order (signal number, exclusive first, address) over all '
-                          '36 abstract cases; the lookup returns the first node of a signal; the wake walk advances in order and stops after '
-                          'the first exclusive interest or at another signal', floor=40)
-    ctx.rule('R-C10a', 'pid gate first: in the process signal handler the owner-pid test dominates every other action', floor=3)
-    ctx.rule('R-C10b', 'active is cleared before the user handler, with all signals blocked (process-wide interests: under sig_lock); '
-                       'the mask is restored before the handler', floor=4)
-    ctx.rule('R-C10c', 'sig_lock is taken only with all signals blocked (outside the handler itself)', floor=3)
+                          '36 abstract cases; in every model world the handler\'s walk starts at the first interest of the delivered '
+                          'signal, wakes only that signal, reaches every shared interest and stops after the first exclusive one', floor=42)
+    ctx.rule('R-C10a', 'pid gate first: in the process signal handler the owner-pid test dominates every other action; the receiving '
+                       'thread\'s interests are served before (and instead of) the process-wide ones, which are walked under the lock', floor=6)
+    ctx.rule('R-C10b', 'active is cleared before the user handler, with all signals blocked (process-wide interests: under the signal lock); '
+                       'the mask is restored before the handler', floor=7)
+    ctx.rule('R-C10c', 'the signal lock is taken only with all signals blocked (outside the handler itself)', floor=4)
     ctx.rule('R-C10d', 'disposition follows the interest count: the library handler is installed on the 0->1 edge, SIG_DFL restored on the '
-                       '1->0 edge; count changes are balanced; the exclusive hand-off happens on the other arm inside the lock region', floor=6)
-    ctx.rule('R-C10e', 'the forked child is reset before user code runs; the atfork handlers bracket sig_lock', floor=4)
+                       '1->0 edge; count changes are balanced; the exclusive hand-off happens on the other arm inside the lock region', floor=25)
+    ctx.rule('R-C10e', 'the forked child is reset before user code runs; the atfork handlers bracket the signal lock', floor=7)
     ctx.rule('R-C10g', 'NULL-CONTRADICTION in iv_signal.c (shared with C11)', floor=0)
-    ctx.section(tables)
-    ctx.section(gate)
-    ctx.section(event_side)
-    ctx.section(lock_blocked)
-    ctx.section(disposition)
-    ctx.section(fork)
+    sig = Sig(ctx.prog)
+    ctx.section(tables, sig)
+    ctx.section(gate, sig)
+    ctx.section(event_side, sig)
+    ctx.section(lock_blocked, sig)
+    ctx.section(disposition, sig)
+    ctx.section(fork, sig)
+    ctx.section(nulls, sig)
+    ctx.section(coverage, sig)
 
 
-def tables(ctx):
-    prog = ctx.prog
-    f = prog.fn('iv_signal_compare')
-    pairs, bools = interp.atoms_of(f)
-    sp = [p for p in pairs if p[0].endswith('->signum') and p[1].endswith('->signum')]
-    ap = [p for p in pairs if '->' not in p[0] and '->' not in p[1]]
-    if len(sp) != 1 or len(ap) != 1 or len(bools) != 2 or len(pairs) != 2:
-        raise AnalysisBroken('iv_signal_compare is no longer (signum, exclusive flag, address): pairs %s flags %s' % (pairs, bools))
-    a, b = ap[0]
-    fa = [x for x in bools if x.startswith('(%s->flags & ' % a)]
-    fb = [x for x in bools if x.startswith('(%s->flags & ' % b)]
-    if len(fa) != 1 or len(fb) != 1 or not fa[0].endswith('& %d)' % EXCL):
-        raise AnalysisBroken('iv_signal_compare: exclusive flag tests not recognised: %s' % bools)
-    table = {}
-    for so, ea, eb, ao in itertools.product('<=>', (False, True), (False, True), '<=>'):
-        orders = {sp[0]: so if sp[0][0].startswith(a + '->') else {'<': '>', '>': '<', '=': '='}[so], ap[0]: ao}
-        asg = interp.Assignment(orders=orders, bools={fa[0]: ea, fb[0]: eb})
-        r = interp.run(f, asg)['ret']
-        if so != '=':
-            want = -1 if so == '<' else 1
-        elif ea != eb:
-            want = -1 if ea else 1
-        else:
-            want = {'<': -1, '=': 0, '>': 1}[ao]
-        table[(so, ea, eb, ao)] = cmprules.sign(r)
-        ctx.ob('R-C10.cmp', 'compare:signum%s,excl(a)=%d,excl(b)=%d,addr%s' % (so, ea, eb, ao), cmprules.sign(r) == want, loc=f.loc,
-               detail='returns %s, lexicographic (signum, exclusive first, address) requires sign %d' % (r, want), fn=f.q)
-    # antisymmetry of the table
+def guarded(fn):
+    """a trace the obligations cannot be read from (a mutant posting something that is no interest, ...) is a
+    broken analysis of that section, not a crash of the check"""
+    @functools.wraps(fn)
+    def w(ctx, sig):
+        try:
+            return fn(ctx, sig)
+        except (KeyError, IndexError, TypeError, ValueError, AttributeError) as e:
+            raise AnalysisBroken('%s: the model trace cannot be interpreted (%s: %s)' % (fn.__name__, type(e).__name__, e))
+    return w
+
+
+# --------------------------------------------------------------------------
+# roles
+# --------------------------------------------------------------------------
+
+class Sig:
+    """Anchors of iv_signal.c, by role."""
+
+    def __init__(self, prog):
+        self.prog = prog
+        self.cover = set()
+        self.entered = set()
+        self.lock_log = []
+        self._cache = {}
+        self._err = None
+
+    def need(self):
+        """static roles (raises AnalysisBroken inside the calling section)"""
+        if self._err:
+            raise AnalysisBroken(self._err)
+        if 'ok' in self._cache:
+            return self
+        try:
+            self._discover()
+        except (AnalysisBroken, Stuck) as e:
+            self._err = 'roles of the signal code: %s' % e
+            raise AnalysisBroken(self._err)
+        self._cache['ok'] = True
+        return self
+
+    def _discover(self):
+        prog = self.prog
+        self.reg = prog.fn('iv_signal_register')
+        self.unreg = prog.fn('iv_signal_unregister')
+        self.unit = prog.unit_of(self.reg)
+        self.reset = self.find_reset()
+        if self.unit is None or prog.unit_of(self.unreg) != self.unit:
+            raise AnalysisBroken('iv_signal_register / iv_signal_unregister are not defined in one unit')
+        u = self.unit
+        self.g_lock = h10.typed_slot(prog, u, lambda s: s[2] == 'spinlock_t' or h10.plain_type(s[1]) == 'spinlock_t', 'the signal lock')
+        self.g_owner = h10.typed_slot(prog, u, lambda s: h10.plain_type(s[1]) in ('pid_t', '__pid_t') and not s[3], 'the owner pid')
+        in_unit_rec = lambda r: r is None or str(prog.records.get(r, {}).get('loc', '')).split(':')[0].endswith('/' + u)
+        self.g_counts = h10.typed_slot(prog, u, lambda s: s[4] == 'array' and in_unit_rec(s[5]) and h10.plain_type(s[1]).split('[')[0].strip() in
+                                       ('int', 'unsigned int', 'unsigned', 'short', 'unsigned short', 'uint16_t', 'uint32_t', 'int32_t'),
+                                       'the per-signal interest counts')
+        self.g_tree = h10.typed_slot(prog, u, lambda s: s[2] == 'iv_avl_tree', 'the process-wide interest tree')
+        self.g_tls = h10.typed_slot(prog, u, lambda s: s[2] == 'iv_tls_user', 'the tls user')
+        lay = h10.Layout(prog)
+        self.nsig = int(h10.plain_type(self.g_counts[2][1]).split('[')[1].split(']')[0])
+        self.count_es = lay.size_of(h10.plain_type(self.g_counts[2][1]).split('[')[0].strip())
+        # per-thread state: the record whose size the tls user announces, else the record of this file holding a tree
+        rec = None
+        init = self.g_tls[0].get('init') or {}
+        so = (init.get('fields') or {}).get('sizeof_state') or {}
+        if isinstance(so.get('sizeof'), dict) and so['sizeof'].get('record') in prog.records:
+            rec = so['sizeof']['record']
+        if rec is None:
+            c = [r for r in prog.records.values() if str(r.get('loc', '')).split(':')[0].endswith('/' + u)
+                 and any(s[2] == 'iv_avl_tree' for s in lay.slots('', r['name']))]
+            if len(c) != 1:
+                raise AnalysisBroken('per-thread signal state: %d candidate records' % len(c))
+            rec = c[0]['name']
+        ts = [s for s in lay.slots('', rec) if s[2] == 'iv_avl_tree']
+        if len(ts) != 1:
+            raise AnalysisBroken('per-thread signal state %s: %d trees' % (rec, len(ts)))
+        self.thr_rec, self.thr_off = rec, ts[0][0]
+        self.thr_field = [f['name'] for f in prog.records[rec]['fields'] if f['offset'] == self.thr_off and f.get('record') == 'iv_avl_tree']
+        self.lock_name = self.slot_lockid(self.g_lock)
+        self.owner_canon = self.slot_canon(self.g_owner)
+        self.counts_root = self.g_counts[0]['name']
+        # comparators: what is installed in the compare slot of a tree by this unit
+        cmps = []
+        for f in self.unit_funcs():
+            for e in f.events():
+                if e['ev'] == 'store' and last_member(e['lhs']) == ('iv_avl_tree', 'compare'):
+                    r = strip(e.get('rhs'))
+                    if isinstance(r, dict) and r.get('k') == 'var' and r.get('vk') == 'func':
+                        g = prog.resolve(u, r['name'])
+                        if g is not None and g not in cmps:
+                            cmps.append(g)
+        for g_ in h10.unit_globals(prog, u):
+            for x in walk(g_.get('init') or {}):
+                if x.get('k') == 'init' and x.get('record') == 'iv_avl_tree':
+                    r = strip((x.get('fields') or {}).get('compare') or {})
+                    if isinstance(r, dict) and r.get('k') == 'var' and r.get('vk') == 'func':
+                        g = prog.resolve(u, r['name'])
+                        if g is not None and g not in cmps:
+                            cmps.append(g)
+        self.cmps = cmps
+        # fork hooks: the arguments of pthr_atfork
+        hooks = []
+        for f in self.unit_funcs():
+            for e in f.events():
+                if is_call(e, 'pthr_atfork') and e['ev'] == 'call':
+                    hooks.append((f, e))
+        self.atfork = hooks
+        # handler and raw-event handler: what registration installs (model run; if registration installs nothing the
+        # functions whose address the unit stores into a sa_handler / raw-event handler field, so that the rules about
+        # registration report the defect rather than the analysis breaking)
+        m, x, r = self.run_register(flags=0, count0=0, owner=0)
+        sa = {t['handler'][1] for t in m.trace if t['t'] == 'sigaction' and t['sig'] == S and h10.is_fn(t['handler'])}
+        er = {t['evh'][1] for t in m.trace if t['t'] == 'ev-register' and t['obj'] == x and not t['misaligned'] and h10.is_fn(t['evh'])}
+        if len(sa) != 1:
+            sa = self.stored_functions(lambda lm: lm is not None and lm[1] == 'sa_handler')
+        if len(er) != 1:
+            er = self.stored_functions(lambda lm: lm == ('iv_event_raw', 'handler'))
+        if len(sa) != 1 or len(er) != 1:
+            raise AnalysisBroken('iv_signal_register installs %d signal handlers and %d raw-event handlers' % (len(sa), len(er)))
+        self.handler = prog.funcs.get(list(sa)[0])
+        self.eventfn = prog.funcs.get(list(er)[0])
+        if self.handler is None or self.eventfn is None or not self.handler.blocks or not self.eventfn.blocks:
+            raise AnalysisBroken('installed handlers are not functions of the program: %s / %s' % (sorted(sa), sorted(er)))
+
+    def stored_functions(self, pred):
+        out = set()
+        for f in self.unit_funcs():
+            for e in f.events():
+                if e['ev'] == 'store' and pred(last_member(e['lhs'])):
+                    r = strip(e.get('rhs'))
+                    if isinstance(r, dict) and r.get('k') == 'var' and r.get('vk') == 'func':
+                        g = self.prog.resolve(self.unit, r['name'])
+                        if g is not None:
+                            out.add(g.q)
+        return out
+
+    def find_reset(self):
+        """the post-fork reset entry point: by its exported name, else the only other parameterless external function of the unit"""
+        prog = self.prog
+        if prog.has_fn('iv_signal_child_reset_postfork'):
+            return prog.fn('iv_signal_child_reset_postfork')
+        unit = prog.unit_of(prog.fn('iv_signal_register'))
+        c = [f for f in prog.all_funcs() if prog.unit_of(f) == unit and not f.static and not f.params and f.blocks
+             and f.name not in ('iv_signal_register', 'iv_signal_unregister')]
+        if len(c) != 1:
+            raise AnalysisBroken('post-fork reset entry point of the signal code: %d candidates' % len(c))
+        return c[0]
+
+    def unit_funcs(self):
+        return [f for f in sorted(self.prog.all_funcs(), key=lambda f: f.q) if self.prog.unit_of(f) == self.unit]
+
+    def slot_steps(self, slot):
+        """[(record, field)] leading from the file-scope object to the slot"""
+        g, off, s = slot
+        def find(rec, base, want_rec, want_typ):
+            for f in self.prog.records.get(rec, {}).get('fields', []):
+                o = base + f['offset']
+                if o == off and not f.get('ptr') and ((want_rec and f.get('record') == want_rec) or
+                                                      (not want_rec and h10.plain_type(f.get('type')) == want_typ)):
+                    return [(rec, f['name'])]
+                if f.get('record') and not f.get('ptr') and o <= off:
+                    r = find(f['record'], o, want_rec, want_typ)
+                    if r is not None:
+                        return [(rec, f['name'])] + r
+            return None
+        if off == 0 and (g.get('record') or None) == s[2] and h10.plain_type(g.get('type')).split('[')[0] == h10.plain_type(s[1]).split('[')[0]:
+            return []
+        if not g.get('record'):
+            return []
+        r = find(g['record'], 0, s[2], h10.plain_type(s[1]))
+        if r is None:
+            raise AnalysisBroken('cannot name the sub-object of %s at offset %d' % (g['name'], off))
+        return r
+
+    def slot_canon(self, slot):
+        return slot[0]['name'] + ''.join('.' + f for (_, f) in self.slot_steps(slot))
+
+    def slot_lockid(self, slot):
+        """identity of the lock as analyses.lock_id names it"""
+        st = self.slot_steps(slot)
+        return '%s.%s' % st[-1] if st else slot[0]['name']
+
+    def in_unit(self, q):
+        f = self.prog.funcs.get(q)
+        return f is not None and (self.prog.unit_of(f) == self.unit or not f.file.endswith('.c'))
+
+    def inline(self, f):
+        key = ('inl', f.q)
+        if key not in self._cache:
+            unit = self.unit
+            prog = self.prog
+            self._cache[key] = Inliner(prog, stop=lambda t: prog.unit_of(t) != unit and t.file.endswith('.c')).inline(f)
+        return self._cache[key]
+
+    # -- model worlds ----------------------------------------------------------
+    def machine(self, owner=PID, blocked='NONE', thr=True):
+        m = SigMachine(self.prog, self.unit, pid=PID, blocked=blocked)
+        m.a_lock = (m.global_obj(self.g_lock[0]['name']), self.g_lock[1])
+        m.a_owner = (m.global_obj(self.g_owner[0]['name']), self.g_owner[1])
+        m.a_counts = (m.global_obj(self.g_counts[0]['name']), self.g_counts[1])
+        m.a_ptree = (m.global_obj(self.g_tree[0]['name']), self.g_tree[1])
+        m.write(m.a_owner[0], m.a_owner[1], owner, quiet=True)
+        m.link(m.a_ptree, [])
+        m.a_ttree = None
+        if thr:
+            o = m.alloc(self.prog.records[self.thr_rec]['size'], 'thread-state')
+            m.tinfo = ('p', o, 0)
+            m.a_ttree = (o, self.thr_off)
+            m.link(m.a_ttree, [])
+        return m
+
+    def count_cell(self, m, sig):
+        return (m.a_counts[0], m.a_counts[1] + sig * self.count_es)
+
+    def set_count(self, m, sig, n):
+        c = self.count_cell(m, sig)
+        m.write(c[0], c[1], n, quiet=True)
+
+    def get_count(self, m, sig):
+        c = self.count_cell(m, sig)
+        return m.read(c[0], c[1])
+
+    def finish(self, m):
+        self.cover |= m.cover
+        self.entered |= m.entered
+        for t in m.trace:
+            if t['t'] == 'lock' and t['lock'] == m.a_lock:
+                self.lock_log.append(t)
+
+    def execute(self, m, f, args, what):
+        """run f on the world; returns ('ret', value) | ('fatal', None) | ('loop', msg)"""
+        try:
+            return ('ret', m.run(f, args))
+        except Fatal:
+            return ('fatal', None)
+        except NonTerm as e:
+            return ('loop', str(e))
+        except Stuck as e:
+            raise AnalysisBroken('%s: the model world does not decide the execution: %s' % (what, e))
+        except RecursionError:
+            raise AnalysisBroken('%s: recursion too deep in the model' % what)
+        finally:
+            self.finish(m)
+
+    def run_register(self, flags, count0, owner, thr=True, signum=S):
+        m = self.machine(owner=owner, thr=thr)
+        y = m.interest(S, 0, name='P(%d)' % S)
+        m.link(m.a_ptree, [y])
+        if thr:
+            z = m.interest(S, THIS_THREAD, name='T(%d)' % S)
+            m.link(m.a_ttree, [z])
+        if 0 <= S < self.nsig:
+            self.set_count(m, S, count0)
+        self.set_count(m, 3, 1)
+        x = m.interest(signum, flags, active=UNK, name='X')
+        r = self.execute(m, self.reg, [('p', x, 0)], 'iv_signal_register')
+        return m, x, r
+
+
+def name_of(m, o):
+    s = m.mem.get((o, m.o_signum))
+    fl = m.mem.get((o, m.o_flags), 0)
+    return '%s%s%s' % (s, 'x' if isinstance(fl, int) and fl & EXCL else '', 't' if isinstance(fl, int) and fl & THIS_THREAD else '')
+
+
+def names(m, os_):
+    return '[' + ' '.join(name_of(m, o) for o in os_) + ']'
+
+
+class Agg:
+    """one obligation per aspect, holding iff it holds in every model world"""
+
+    def __init__(self, ctx, rid, loc, fn=None):
+        self.ctx, self.rid, self.loc, self.fn = ctx, rid, loc, fn
+        self.seen = {}
+        self.order = []
+
+    def check(self, inst, ok, world='', detail='', loc=None):
+        if inst not in self.seen:
+            self.seen[inst] = [0, None, None]
+            self.order.append(inst)
+        s = self.seen[inst]
+        s[0] += 1
+        if not ok and s[1] is None:
+            s[1] = '%s: %s' % (world, detail) if world else detail
+            s[2] = loc
+
+    def emit(self, texts=None):
+        for inst in self.order:
+            n, bad, loc = self.seen[inst]
+            t = (texts or {}).get(inst, '')
+            self.ctx.ob(self.rid, inst, bad is None, loc=loc or self.loc,
+                        detail=('%s; holds in all %d model worlds' % (t, n)) if bad is None else ('%s; fails in the world %s' % (t, bad)), fn=self.fn)
+
+
+# --------------------------------------------------------------------------
+# R-C10.cmp: comparator table; lookup and wake walk of the handler
+# --------------------------------------------------------------------------
+
+@guarded
+def tables(ctx, sig):
+    sig.need()
+    if not sig.cmps:
+        raise AnalysisBroken('no comparator is installed in an interest tree of %s' % sig.unit)
     flip = {'<': '>', '>': '<', '=': '='}
-    anti = all(table[(so, ea, eb, ao)] == -table[(flip[so], eb, ea, flip[ao])] for (so, ea, eb, ao) in table if None not in (table[(so, ea, eb, ao)],))
-    ctx.ob('R-C10.cmp', 'compare:antisymmetric', anti, loc=f.loc, detail='cmp(a,b) == -cmp(b,a) for all 36 cases', fn=f.q)
-    cmprules.descent(ctx, 'R-C10.cmp', '__iv_signal_find_first', 'signum', on_equal='first')
-    # wake walk
-    w = prog.fn('__iv_signal_do_wake')
-    hd = holding(w)
-    start = [e for e in w.events() if e['ev'] == 'store' and strip(e.get('rhs', {})).get('k') == 'call' and strip(e['rhs']).get('callee') == '__iv_signal_find_first']
-    nxt = [e for e in w.events() if e['ev'] == 'store' and strip(e.get('rhs', {})).get('k') == 'call' and strip(e['rhs']).get('callee') == 'iv_avl_tree_next']
-    posts = [e for e in w.events() if is_call(e, 'iv_event_raw_post')]
-    if not start or not nxt or not posts:
-        raise AnalysisBroken('__iv_signal_do_wake: walk structure not found')
-    ctx.ob('R-C10.cmp', 'wake:starts-at-first', len(start) == 1 and canon(strip(start[0]['rhs'])['args'][1]) == w.params[1]['name'], loc=start[0]['loc'],
-           detail='the walk starts at the first interest for the delivered signal', fn=w.q)
-    okp = True
-    for p in posts:
-        A = hd.get((p['_b'], p['_i']), frozenset())
-        okp = okp and any(a[0] == '==' and a[1].endswith('->signum') and a[2] == w.params[1]['name'] for a in A)
-    ctx.ob('R-C10.cmp', 'wake:only-same-signal', okp, loc=posts[0]['loc'], detail='an interest is woken only on the edge is->signum == signum', fn=w.q)
-    okn = True
-    for n_ in nxt:
-        A = hd.get((n_['_b'], n_['_i']), frozenset())
-        okn = okn and any(a[0] == '==' and a[2] == '0' and a[1].endswith('->flags & %d)' % EXCL) for a in A)
-        mp = must_pass(w, lambda e: e in posts)
-    ctx.ob('R-C10.cmp', 'wake:stops-after-exclusive', okn, loc=nxt[0]['loc'],
-           detail='the walk advances (iv_avl_tree_next) only on the not-exclusive edge of the interest just woken', fn=w.q)
-    act = [e for e in w.events() if e['ev'] == 'store' and last_member(e['lhs']) == ('iv_signal', 'active') and canon(e.get('rhs')) == '1']
-    oka = bool(act) and all(must_pass(w, lambda e: e in act, start_event=None).get((p['_b'], p['_i'])) is not None for p in posts)
-    lps = loops(w)
-    ok_each = True
-    for p in posts:
-        h = innermost_loop(w, p['_b'], lps)
-        def tr(e, s):
-            return True if e in act else s
-        def edge(blk, si, s, h=h):
-            return False if blk.succ[si] == h else s
-        _, ev_in = forward(w, False, tr, lambda x, y: x and y, edge=edge)
-        ok_each = ok_each and bool(ev_in.get((p['_b'], p['_i'])))
-    ctx.ob('R-C10.cmp', 'wake:marks-active-before-post', ok_each, loc=posts[0]['loc'],
-           detail='active = 1 is stored before the raw event is posted, per interest', fn=w.q)
+    for f in sig.cmps:
+        table = {}
+        for so, ea, eb, ao in itertools.product('<=>', (False, True), (False, True), '<=>'):
+            if so != '=':
+                want = -1 if so == '<' else 1
+            elif ea != eb:
+                want = -1 if ea else 1
+            else:
+                want = {'<': -1, '=': 0, '>': 1}[ao]
+            got = set()
+            for ta, tb in itertools.product((0, THIS_THREAD), repeat=2):
+                m = sig.machine()
+                sa, sb = {'<': (3, 7), '=': (5, 5), '>': (7, 3)}[so]
+                ba, bb = {'<': (0x5000, 0x9000), '=': (0x7000, 0x7000), '>': (0x9000, 0x5000)}[ao]
+                a = m.interest(sa, (EXCL if ea else 0) | ta, base=ba)
+                b = m.interest(sb, (EXCL if eb else 0) | tb, base=bb)
+                r = sig.execute(m, f, [('p', a, m.o_an), ('p', b, m.o_an)], 'comparator %s' % f.name)
+                if r[0] != 'ret' or not isinstance(r[1], int):
+                    raise AnalysisBroken('comparator %s: no integer result (%s)' % (f.name, r,))
+                got.add(cmprules.sign(r[1]))
+            table[(so, ea, eb, ao)] = got
+            ctx.ob('R-C10.cmp', 'compare:signum%s,excl(a)=%d,excl(b)=%d,addr%s' % (so, ea, eb, ao), got == {want}, loc=f.loc,
+                   detail='returns sign %s, lexicographic (signum, exclusive first, address) requires sign %d (whatever the other flag bits)'
+                          % (sorted(got), want), fn=f.q)
+        anti = all(len(v) == 1 and table[(flip[k[0]], k[2], k[1], flip[k[3]])] == {-list(v)[0]} for k, v in table.items())
+        ctx.ob('R-C10.cmp', 'compare:antisymmetric', anti, loc=f.loc, detail='cmp(a,b) == -cmp(b,a) for all 36 cases', fn=f.q)
+    res = handler_worlds(sig)
+    ag = Agg(ctx, 'R-C10.cmp', sig.handler.loc, sig.handler.q)
+    for w in res:
+        if not w['gate_open']:
+            continue
+        m, d = w['m'], w['desc']
+        for tname, order, exp, posted in w['walks']:
+            key = lambda o: (m.mem[(o, m.o_signum)], m.mem[(o, m.o_flags)])
+            ag.check('wake:terminates', w['end'][0] != 'loop', d, w['end'][1] or '')
+            if w['end'][0] == 'loop':
+                continue
+            ag.check('lookup:first-of-signal', not exp or (bool(posted) and posted[0] == exp[0]), d,
+                     '%s tree %s: first woken %s, the first interest of signal %d is %s' % (tname, names(m, order), names(m, posted[:1]), S, names(m, exp[:1])))
+            ag.check('wake:only-same-signal', all(key(o)[0] == S for o in posted), d,
+                     '%s tree %s: woken %s for a delivery of signal %d' % (tname, names(m, order), names(m, posted), S))
+            ag.check('wake:reaches-all-shared', set(exp) <= set(posted), d,
+                     '%s tree %s: woken %s, must wake %s' % (tname, names(m, order), names(m, posted), names(m, exp)))
+            first_x = [i for i, o in enumerate(posted) if key(o)[1] & EXCL]
+            ag.check('wake:stops-after-exclusive', not first_x or first_x[0] == len(posted) - 1, d,
+                     '%s tree %s: woken %s, dispatch stops at the first exclusive interest (%s)' % (tname, names(m, order), names(m, posted), names(m, exp)))
+            idx = [order.index(o) for o in posted if o in order]
+            ag.check('wake:in-order-once', idx == sorted(set(idx)), d, '%s tree %s: woken %s' % (tname, names(m, order), names(m, posted)))
+        for t in w['posts']:
+            ag.check('wake:marks-active-before-post', isinstance(t.get('active'), int) and t['active'] != 0, d,
+                     'active is %r when the raw event of %s is posted' % (t.get('active'), name_of(m, t['obj'])), loc=t['loc'])
+    ag.emit({'lookup:first-of-signal': 'the walk starts at the first interest (in tree order) of the delivered signal',
+             'wake:only-same-signal': 'only interests of the delivered signal are woken',
+             'wake:reaches-all-shared': 'every shared interest up to the first exclusive one is woken',
+             'wake:stops-after-exclusive': 'nothing is woken after the first exclusive interest',
+             'wake:in-order-once': 'interests are woken in tree order, each once',
+             'wake:terminates': 'the walk terminates',
+             'wake:marks-active-before-post': 'active = 1 is stored before the raw event is posted, per interest'})
 
 
-def gate(ctx):
-    prog = ctx.prog
-    f = prog.fn('iv_signal_handler')
-    hd = holding(f)
-    acts = [e for e in f.events() if e['ev'] == 'call' and e.get('callee') != 'getpid']
+def process_keys():
+    return [(S - 1, EXCL), (S - 1, 0), (S, EXCL), (S, 0), (S + 1, EXCL), (S + 1, 0)]
+
+
+def handler_world_list():
+    """(process tree keys, shape, thread tree keys or None, owner pid)"""
+    out = []
+    keys = process_keys()
+    for n in range(0, 4):
+        for combo in itertools.combinations_with_replacement(range(len(keys)), n):
+            ks = [keys[i] for i in combo]
+            for sh in h10.shapes(n):
+                out.append((ks, sh, None, PID))
+    for ks in ([(S, 0)] * 4, [(S, EXCL), (S, 0), (S, 0), (S, 0)], [(S - 1, 0), (S, 0), (S, 0), (S + 1, 0)], [(S - 1, EXCL), (S, EXCL), (S, EXCL), (S, 0)]):
+        for sh in h10.shapes(4):
+            out.append((ks, sh, None, PID))
+    for sh in h10.shapes(5):
+        out.append(([(S - 1, 0), (S, 0), (S, 0), (S, 0), (S + 1, 0)], sh, None, PID))
+    out.append(([(S - 1, EXCL), (S - 1, 0), (S, EXCL), (S, EXCL), (S, 0), (S, 0), (S + 1, 0)], None, None, PID))
+    T = THIS_THREAD
+    for lt in ([], [(S, T)], [(S, T | EXCL)], [(S - 1, T)], [(S + 1, T | EXCL)], [(S, T | EXCL), (S, T)], [(S, T), (S, T)],
+               [(S - 1, T | EXCL), (S, T), (S + 1, T)], [(S - 1, T), (S + 1, T)]):
+        for lp in ([], [(S, 0)], [(S, EXCL), (S, 0)], [(S - 1, 0), (S + 1, 0)]):
+            out.append((lp, None, lt, PID))
+    for owner in (0, PID + 1):
+        for lt in (None, [(S, T)]):
+            out.append(([(S, 0)], None, lt, owner))
+    return out
+
+
+def handler_worlds(sig):
+    if 'hw' in sig._cache:
+        return sig._cache['hw']
+    out = []
+    for (lp, sh, lt, owner) in handler_world_list():
+        m = sig.machine(owner=owner, blocked='ALL', thr=lt is not None)
+        po = [m.interest(s, fl) for (s, fl) in lp]
+        m.link(m.a_ptree, po, sh)
+        to = []
+        if lt is not None:
+            to = [m.interest(s, fl) for (s, fl) in lt]
+            m.link(m.a_ttree, to)
+        m.watch = {o: None for o in po}
+        m.watch[m.a_ptree[0]] = (m.a_ptree[1], m.a_ptree[1] + sig.prog.records['iv_avl_tree']['size'])
+        end = sig.execute(m, sig.handler, [S], 'signal handler')
+        posts = [t for t in m.trace if t['t'] == 'post']
+        key = lambda o: (m.mem[(o, m.o_signum)], m.mem[(o, m.o_flags)])
+        texp = h10.dispatch_spec(to, key, S)
+        pexp = h10.dispatch_spec(po, key, S) if not texp else []
+        walks = []
+        if lt is not None:
+            walks.append(('thread', to, texp, [t['obj'] for t in posts if t['obj'] in to]))
+        walks.append(('process', po, pexp, [t['obj'] for t in posts if t['obj'] in po]))
+        desc = 'process tree %s%s%s, owner pid %s, signal %d delivered' % (
+            names(m, po), (' shape %s' % shape_str(sh)) if sh is not None and len(lp) > 1 else '',
+            (', thread tree %s' % names(m, to)) if lt is not None else ', no thread state', 'matches' if owner == PID else owner, S)
+        out.append({'m': m, 'desc': desc, 'gate_open': owner == PID, 'walks': walks, 'posts': posts, 'end': end, 'po': po, 'to': to,
+                    'texp': texp, 'pexp': pexp, 'thr': lt is not None})
+    sig._cache['hw'] = out
+    return out
+
+
+def shape_str(sh):
+    if not sh:
+        return '.'
+    return '(%s %s)' % (shape_str(sh[0]), shape_str(sh[1]))
+
+
+# --------------------------------------------------------------------------
+# R-C10a: the handler
+# --------------------------------------------------------------------------
+
+@guarded
+def gate(ctx, sig):
+    sig.need()
+    f = sig.handler
+    g = sig.inline(f)
+    hd = holding_exprs(g)
+    acts = [e for e in g.events() if e['ev'] == 'call' and e.get('callee') not in h10.LOOKUPS]
     if not acts:
         raise AnalysisBroken('signal handler: no actions found')
+    owner = sig.owner_canon
+
+    def leaves(x, depth=0):
+        """{'owner', 'pid'} parts an expression is computed from, None if it depends on anything else"""
+        x = strip(x)
+        if not isinstance(x, dict) or depth > 6:
+            return None
+        k = x.get('k')
+        if k in ('int', 'null'):
+            return set()
+        if k == 'call':
+            return {'pid'} if x.get('callee') == 'getpid' and not x.get('args') else None
+        if k in ('var', 'member'):
+            if canon(x) == owner:
+                return {'owner'}
+            if k == 'var' and x.get('vk') in ('local', 'param'):
+                ds = h10.defs_of(g, x['name'])
+                if not ds or any(d is None for d in ds):
+                    return None
+                out = set()
+                for d in ds:
+                    r = leaves(d, depth + 1)
+                    if r is None:
+                        return None
+                    out |= r
+                return out
+            return None
+        if k in ('bin', 'un', 'cond'):
+            out = set()
+            for key in ('l', 'r', 'e', 'c', 'a', 'b'):
+                if key in x:
+                    r = leaves(x[key], depth)
+                    if r is None:
+                        return None
+                    out |= r
+            return out
+        return None
     bad = []
     for e in acts:
-        A = hd.get((e['_b'], e['_i']), frozenset())
-        nz = any(a[0] == '!=' and a[1] == 'sig_owner_pid' and a[2] == '0' for a in A)
-        eq = any(a[0] == '==' and {a[1], a[2]} == {'sig_owner_pid', 'getpid()'} for a in A)
-        if not (nz and eq):
+        ok = False
+        for (op, lc, rc, l, r) in hd.get((e['_b'], e['_i']), ()):
+            a, b = leaves(l), leaves(r) if isinstance(r, dict) else set()
+            if a is not None and b is not None and (a | b) == {'owner', 'pid'}:
+                ok = True
+        if not ok:
             bad.append(e)
+    byloc = by_loc(acts)
     e0 = bad[0] if bad else acts[0]
     ctx.ob('R-C10a', 'handler:pid-gate-dominates', not bad, loc=e0['loc'],
-           detail=('%s is reachable without the owner-pid test' % describe(e0)) if bad else '%d actions, all behind sig_owner_pid != 0 && sig_owner_pid == getpid()' % len(acts), fn=f.q)
-    # per-thread interests first, then process-wide under the spinlock
-    ls = locksets(f, entry=frozenset([SIGBLOCK]))
-    wakes = [e for e in f.events() if is_call(e, '__iv_signal_do_wake')]
-    thr = [e for e in wakes if 'thr_sigs' in canon(e['args'][0])]
-    pro = [e for e in wakes if canon(e['args'][0]) == '&process_sigs']
-    ctx.ob('R-C10a', 'handler:thread-interests-first', bool(thr) and bool(pro) and all(
-        must_pass(f, lambda e: e in thr).get((p['_b'], p['_i'])) or True for p in pro), loc=f.loc,
-        detail='the receiving thread\'s own interests are consulted; process-wide ones only if none of them took the signal', fn=f.q)
-    okl = all(SIG in held(ls.get((p['_b'], p['_i']))) for p in pro)
-    ctx.ob('R-C10a', 'handler:process-tree-under-lock', okl and bool(pro), loc=pro[0]['loc'] if pro else f.loc,
-           detail='the process-wide tree is walked under sig_lock', fn=f.q)
-    # process-wide walk happens exactly when the thread walk woke nobody (or there is no thread area)
-    hd2 = hd
-    okc = True
-    for p in pro:
-        A = hd.get((p['_b'], p['_i']), frozenset())
-    ctx.ob('R-C10a', 'handler:installed', any(e['ev'] == 'store' and canon(e.get('rhs', {})) == 'iv_signal_handler' and canon(e['lhs']).endswith('sa_handler')
-                                               for fn in prog.all_funcs() for e in fn.events()), loc=f.loc,
-           detail='iv_signal_handler is what iv_signal_register installs', fn=f.q)
+           detail=('%s is reachable without a test of the owner pid against getpid()' % describe(e0)) if bad else
+                  '%d actions of the handler (helpers inlined), each dominated by a branch on a value computed only from %s and getpid() '
+                  '(what that branch decides: handler:pid-gate-closed, over the three cases unset / this process / another process)' % (len(byloc), owner), fn=f.q)
+    res = handler_worlds(sig)
+    ag = Agg(ctx, 'R-C10a', f.loc, f.q)
+    for w in res:
+        m, d = w['m'], w['desc']
+        if w['end'][0] == 'loop':
+            continue
+        eff = [t for t in m.trace if t['t'] in ('post', 'lock', 'unlock', 'store', 'insert', 'delete', 'sigaction', 'user', 'extern')]
+        if not w['gate_open']:
+            ag.check('handler:pid-gate-closed', not eff, d, 'the handler acts (%s) although the owner pid is not this process'
+                     % ', '.join(sorted({t['t'] for t in eff})))
+            continue
+        tposted = [t['obj'] for t in w['posts'] if t['obj'] in w['to']]
+        pposted = [t['obj'] for t in w['posts'] if t['obj'] in w['po']]
+        ok = (not w['texp'] or bool(tposted)) and not (tposted and pposted)
+        if tposted and pposted:
+            first_p = min(t['seq'] for t in w['posts'] if t['obj'] in w['po'])
+            first_t = min(t['seq'] for t in w['posts'] if t['obj'] in w['to'])
+            msg = 'process-wide interests %s woken %s the thread\'s own %s' % (names(m, pposted), 'before' if first_p < first_t else 'in addition to', names(m, tposted))
+        else:
+            msg = 'thread tree %s has an interest for the signal, woken: thread %s process %s' % (names(m, w['to']), names(m, tposted), names(m, pposted))
+        ag.check('handler:thread-interests-first', ok, d, msg)
+        if not w['texp']:
+            ag.check('handler:falls-back-to-process-tree', set(w['pexp']) <= set(pposted), d,
+                     'no interest of the receiving thread took the signal, process-wide %s must be woken, woken %s' % (names(m, w['pexp']), names(m, pposted)))
+        def watched(t):
+            r = m.watch.get(t.get('oid'), False)
+            return r is None or (r is not False and r[0] <= t['off'] < r[1])
+        unl = [t for t in m.trace if t['t'] in ('read', 'store') and watched(t) and m.a_lock not in t['held']] + \
+              [t for t in w['posts'] if t['obj'] in w['po'] and m.a_lock not in t['held']]
+        ag.check('handler:process-tree-under-lock', not unl, d,
+                 'the process-wide tree is accessed without the signal lock at %s' % (', '.join(sorted({str(t['loc']).split('/')[-1] for t in unl})[:4])),
+                 loc=unl[0]['loc'] if unl else None)
+        ag.check('handler:lock-released-at-return', not m.held and m.blocked == 'ALL' and w['end'][0] == 'ret', d,
+                 'at return the handler holds %d locks, signal mask %s' % (len(m.held), m.blocked))
+    ag.emit({'handler:pid-gate-closed': 'with an owner pid that is 0 or another process the handler does nothing',
+             'handler:thread-interests-first': 'the receiving thread\'s own interests are consulted first; process-wide ones only if none of them took the signal',
+             'handler:falls-back-to-process-tree': 'a delivery no thread interest took is dispatched in the process-wide tree',
+             'handler:process-tree-under-lock': 'the process-wide tree is walked under the signal lock',
+             'handler:lock-released-at-return': 'the handler returns with the lock released and the mask untouched'})
 
 
-def event_side(ctx):
-    prog = ctx.prog
-    f = prog.fn('iv_signal_event')
-    ls = locksets(f)
-    sites = [e for e in f.events() if callback_kind(e) == ('callback', 'signal')]
-    clr = [e for e in f.events() if e['ev'] == 'store' and last_member(e['lhs']) == ('iv_signal', 'active') and canon(e.get('rhs')) == '0']
-    if not sites or not clr:
-        raise AnalysisBroken('iv_signal_event: handler call or active reset not found')
-    hd = holding(f)
-    for c in clr:
-        H = held(ls.get((c['_b'], c['_i'])))
-        A = hd.get((c['_b'], c['_i']), frozenset())
-        this_thread = any(a[0] == '!=' and a[2] == '0' and a[1].endswith('->flags & %d)' % THIS_THREAD) for a in A)
-        ctx.ob('R-C10b', 'event:active-cleared-signals-blocked%s' % ('(this-thread)' if this_thread else ''), SIGBLOCK in H and (this_thread or SIG in H), loc=c['loc'],
-               detail='active = 0 with all signals blocked%s; held: %s' % ('' if this_thread else ' and under sig_lock (process-wide interest)', sorted(H)), fn=f.q)
-    for cs in sites:
-        mp = must_pass(f, lambda e: e in clr)
-        ctx.ob('R-C10b', 'event:cleared-before-handler', bool(mp.get((cs['_b'], cs['_i']))), loc=cs['loc'],
-               detail='active is cleared on every path before the user handler (a delivery during the handler re-posts)', fn=f.q)
-        ctx.ob('R-C10b', 'event:mask-restored-before-handler', not held(ls.get((cs['_b'], cs['_i']))), loc=cs['loc'],
+# --------------------------------------------------------------------------
+# R-C10b: the raw-event handler
+# --------------------------------------------------------------------------
+
+@guarded
+def event_side(ctx, sig):
+    sig.need()
+    f = sig.eventfn
+    ag = Agg(ctx, 'R-C10b', f.loc, f.q)
+    for fl in (0, EXCL, THIS_THREAD, THIS_THREAD | EXCL):
+        # the raw event as registration leaves it: its handler is entered with its cookie, whatever these are
+        m, x, end = sig.run_register(fl, 1, PID, True)
+        er = [t for t in m.trace if t['t'] == 'ev-register' and t['obj'] == x and not t['misaligned']]
+        if end != ('ret', 0) or len(er) != 1 or not h10.is_fn(er[0]['evh']) or er[0]['evh'][1] not in sig.prog.funcs or m.held or m.blocked != 'NONE':
+            raise AnalysisBroken('raw-event handler: registration does not leave a registered raw event to run (%r)' % (end,))
+        m.write(x, m.o_active, 1, quiet=True)
+        m.trace = []
+        end = sig.execute(m, sig.prog.funcs[er[0]['evh'][1]], [er[0]['evc']], 'raw-event handler')
+        d = 'pending interest with flags %d' % fl
+        users = [t for t in m.trace if t['t'] == 'user']
+        stores = [t for t in m.trace if t['t'] == 'store' and t['oid'] == x and t['off'] == m.o_active]
+        zero = [t for t in stores if t['val'] == 0]
+        inst = 'event:active-cleared-under-lock(%s)' % ('this-thread' if fl & THIS_THREAD else 'process-wide')
+        ag.check(inst, bool(zero) and all(t['blocked'] == 'ALL' and (fl & THIS_THREAD or m.a_lock in t['held']) for t in zero), d,
+                 'active = 0 stored %d times; signal mask %s, lock held %s' % (len(zero), [t['blocked'] for t in zero], [m.a_lock in t['held'] for t in zero]))
+        ok_before = bool(users) and all(any(s['seq'] < u['seq'] for s in stores) and
+                                        [s for s in stores if s['seq'] < u['seq']][-1]['val'] == 0 for u in users)
+        ag.check('event:active-is-0-at-handler', ok_before, d, 'the user handler is entered with active still set (a delivery during the handler would be lost)')
+        ag.check('event:handler-runs-unmasked', bool(users) and all(not u['held'] and u['blocked'] == 'NONE' for u in users), d,
+                 'handler entered with mask %s, %d locks held' % ([u['blocked'] for u in users], max([len(u['held']) for u in users] or [0])))
+        ag.check('event:handler-invoked-once', end[0] == 'ret' and len(users) == 1 and users[0]['who'] == x and users[0]['args'] == [('cookie', x)], d,
+                 'the interest\'s handler is called %d times (args %s)' % (len(users), [u['args'] for u in users][:2]))
+        ag.check('event:lock-region-closed', end[0] == 'ret' and not m.held and m.blocked == 'NONE', d, 'returns holding %d locks, mask %s' % (len(m.held), m.blocked))
+    ag.emit({'event:active-cleared-under-lock(process-wide)': 'active = 0 with all signals blocked and under the signal lock (process-wide interest)',
+             'event:active-cleared-under-lock(this-thread)': 'active = 0 with all signals blocked (this-thread interest)',
+             'event:active-is-0-at-handler': 'active is 0 when the user handler is entered',
+             'event:handler-runs-unmasked': 'the handler runs with the signal mask restored and no lock held',
+             'event:handler-invoked-once': 'the interest\'s handler is called once with its cookie',
+             'event:lock-region-closed': 'lock released and mask restored at return'})
+    # ---- path properties: every path, every context (floor: these three anchors must exist)
+    g = sig.inline(f)
+    ls = locksets(g)
+    sites = [e for e in g.events() if callback_kind(e) == ('callback', 'signal')]
+    clr = [e for e in g.events() if e['ev'] == 'store' and h10.target_member(g, e['lhs']) == ('iv_signal', 'active') and e.get('op') == '=' and is_int(e.get('rhs'), 0)]
+    for loc, evs in sorted(by_loc(clr).items()):
+        H = set.intersection(*[held(ls.get((c['_b'], c['_i']))) for c in evs])
+        ctx.ob('R-C10b', 'event:active-cleared-with-signals-blocked', SIGBLOCK in H, loc=loc,
+               detail='active = 0 is stored with all signals blocked on every path; held: %s' % sorted(H), fn=f.q)
+    mp = must_pass(g, lambda e: e in clr)
+    for loc, evs in sorted(by_loc(sites).items()):
+        if clr:
+            ctx.ob('R-C10b', 'event:cleared-before-handler', all(mp.get((cs['_b'], cs['_i'])) for cs in evs), loc=loc,
+                   detail='active is cleared on every path before the user handler (a delivery during the handler re-posts)', fn=f.q)
+        ctx.ob('R-C10b', 'event:mask-restored-before-handler', all(not held(ls.get((cs['_b'], cs['_i']))) for cs in evs), loc=loc,
                detail='the handler runs with the signal mask restored and no lock held', fn=f.q)
 
 
-def lock_blocked(ctx):
+def by_loc(events):
+    out = {}
+    for e in events:
+        out.setdefault(e.get('loc'), []).append(e)
+    return out
+
+
+# --------------------------------------------------------------------------
+# R-C10c: lock only with signals blocked
+# --------------------------------------------------------------------------
+
+@guarded
+def lock_blocked(ctx, sig):
+    sig.need()
     prog = ctx.prog
     n = 0
     bad = []
     for r in roots_of(prog):
-        entry = frozenset([SIGBLOCK]) if r.name == 'iv_signal_handler' else frozenset()
-        if r.name == 'iv_signal_parent':
-            continue
+        entry = frozenset([SIGBLOCK]) if r.q == sig.handler.q else frozenset()
         g = Inliner(prog, expand_methods=True).inline(r)
         ls = locksets(g, entry=entry)
         for e in g.events():
-            if is_call(e, ('spin_lock', 'spin_lock_sigmask')) and canon(e['args'][0]) == '&sig_lock':
+            if e['ev'] == 'call' and is_call(e, ('spin_lock', 'spin_lock_sigmask')) and lock_id(e['args'][0]) == sig.lock_name \
+                    and sig.in_unit(e.get('fn') or r.q):
                 n += 1
                 H = held(ls.get((e['_b'], e['_i'])))
                 if e['callee'] == 'spin_lock' and SIGBLOCK not in H:
                     bad.append((r, e))
     if n < 3:
-        raise AnalysisBroken('acquisitions of sig_lock: %d' % n)
+        raise AnalysisBroken('acquisitions of the signal lock: %d' % n)
     seen = set()
     for (r, e) in bad:
         k = (e.get('fn'), e['loc'])
@@ -192,134 +692,356 @@ def lock_blocked(ctx):
             continue
         seen.add(k)
         ctx.ob('R-C10c', 'sig_lock:%s' % (e.get('fn') or r.name).split(':')[-1], False, loc=e['loc'],
-               detail='sig_lock taken with signals deliverable (entry %s): a delivery on this thread would spin on its own lock' % r.name)
+               detail='signal lock taken with signals deliverable (entry %s): a delivery on this thread would spin on its own lock' % r.name)
     if not bad:
-        ctx.ob('R-C10c', 'sig_lock:all-acquisitions', True, loc=prog.fn('iv_signal_register').loc,
+        ctx.ob('R-C10c', 'sig_lock:all-acquisitions', True, loc=sig.reg.loc,
                detail='%d acquisitions over all entry points, each with all signals blocked (or inside the handler)' % n)
     # wrappers summarise to blocks+locks
-    w = prog.fn('spin_lock_sigmask')
-    mp = must_pass(w, lambda e: is_call(e, 'pthr_sigmask') and canon(e['args'][0]) == '0')
+    w = Inliner(prog).inline(prog.fn('spin_lock_sigmask'))
+    mp = must_pass(w, lambda e: is_call(e, ('pthr_sigmask', 'pthread_sigmask', 'sigprocmask')) and is_int(e['args'][0], 0))
     lk = [e for e in w.events() if is_call(e, 'spin_lock')]
     ctx.ob('R-C10c', 'spin_lock_sigmask:blocks-then-locks', bool(lk) and all(mp.get((e['_b'], e['_i'])) for e in lk), loc=w.loc,
            detail='the wrapper blocks all signals before taking the lock', fn=w.q)
-    u = prog.fn('spin_unlock_sigmask')
+    u = Inliner(prog).inline(prog.fn('spin_unlock_sigmask'))
     mpu = must_pass(u, lambda e: is_call(e, 'spin_unlock'))
-    rs = [e for e in u.events() if is_call(e, 'pthr_sigmask')]
+    rs = [e for e in u.events() if is_call(e, ('pthr_sigmask', 'pthread_sigmask', 'sigprocmask'))]
     ctx.ob('R-C10c', 'spin_unlock_sigmask:unlocks-then-restores', bool(rs) and all(mpu.get((e['_b'], e['_i'])) for e in rs), loc=u.loc,
            detail='the lock is released before the mask is restored', fn=u.q)
+    # every acquisition seen in a model world
+    handler_worlds(sig)
+    badm = [t for t in sig.lock_log if t['blocked'] != 'ALL' or t['again']]
+    ctx.ob('R-C10c', 'sig_lock:model-worlds', not badm and bool(sig.lock_log), loc=badm[0]['loc'] if badm else sig.reg.loc,
+           detail=('in a model world the signal lock is taken with signal mask %s%s' % (badm[0]['blocked'], ' while already held' if badm[0]['again'] else ''))
+           if badm else '%d acquisitions in the model worlds, all with every signal blocked' % len(sig.lock_log))
 
 
-def disposition(ctx):
-    prog = ctx.prog
-    r = prog.fn('iv_signal_register')
-    hd = holding(r)
-    ls = locksets(r)
-    sa = [e for e in r.events() if is_call(e, 'sigaction')]
-    if not sa:
-        raise AnalysisBroken('register: sigaction not found')
-    inc = [e for e in r.events() if e['ev'] == 'store' and canon(e['lhs']).startswith('total_num_interests[') and e['op'] == '++']
-    ok = bool(inc)
-    for e in sa:
-        A = hd.get((e['_b'], e['_i']), frozenset())
-        ok = ok and any(a[0] == '==' and a[2] == '0' and a[1].startswith('total_num_interests[') and a[1].endswith('++') for a in A)
-    ctx.ob('R-C10d', 'register:install-on-0-to-1', ok, loc=sa[0]['loc'],
-           detail='sigaction(library handler) is on the edge where the per-signal count was 0 before the increment', fn=r.q)
-    hs = [e for e in r.events() if e['ev'] == 'store' and canon(e['lhs']).endswith('sa_handler')]
-    ctx.ob('R-C10d', 'register:handler-value', bool(hs) and all(canon(e['rhs']) == 'iv_signal_handler' for e in hs), loc=hs[0]['loc'] if hs else r.loc,
-           detail='the installed disposition is the library handler, with a full signal mask', fn=r.q)
-    fill = must_pass(r, lambda e: is_call(e, 'sigfillset') and canon(e['args'][0]).endswith('sa_mask'))
-    ctx.ob('R-C10d', 'register:handler-runs-with-signals-blocked', all(fill.get((e['_b'], e['_i'])) for e in sa), loc=sa[0]['loc'],
-           detail='sa_mask is filled: the handler runs with all signals blocked (the model assumed by R-C10c / C14)', fn=r.q)
-    u = prog.fn('iv_signal_unregister')
-    hdu = holding(u)
-    lsu = locksets(u)
-    sau = [e for e in u.events() if is_call(e, 'sigaction')]
-    dec = [e for e in u.events() if e['ev'] == 'store' and canon(e['lhs']).startswith('total_num_interests[') and e['op'] == '--']
-    oku = bool(sau) and bool(dec)
-    for e in sau:
-        A = hdu.get((e['_b'], e['_i']), frozenset())
-        oku = oku and any(a[0] == '==' and a[2] == '0' and a[1].startswith('--total_num_interests[') for a in A)
-    dfl = [e for e in u.events() if e['ev'] == 'store' and canon(e['lhs']).endswith('sa_handler')]
-    oku = oku and bool(dfl) and all(strip(e['rhs']).get('k') in ('null', 'int') or canon(e['rhs']) in ('0', 'NULL') for e in dfl)
-    ctx.ob('R-C10d', 'unregister:default-on-1-to-0', oku, loc=sau[0]['loc'] if sau else u.loc,
-           detail='SIG_DFL is restored on the edge where the count dropped to 0', fn=u.q)
-    ctx.ob('R-C10d', 'count:balanced', len(inc) == 1 and len(dec) == 1 and canon(inc[0]['lhs']) == canon(dec[0]['lhs']), loc=r.loc,
-           detail='one ++ in register, one -- in unregister, same index expression %s' % (canon(inc[0]['lhs']) if inc else '?'))
-    for e in inc + dec:
-        f_ = r if e in inc else u
-        l_ = ls if e in inc else lsu
-        ctx.ob('R-C10d', '%s:count-under-lock' % f_.name, SIG in held(l_.get((e['_b'], e['_i']))), loc=e['loc'],
-               detail='the count changes under sig_lock', fn=f_.q)
-    # exclusive hand-off
-    ho = [e for e in u.events() if is_call(e, '__iv_signal_do_wake')]
-    okh = bool(ho)
-    for e in ho:
-        A = hdu.get((e['_b'], e['_i']), frozenset())
-        okh = okh and any(a[0] == '!=' and a[1].endswith('->flags & %d)' % EXCL) for a in A) \
-            and any(a[0] == '!=' and a[1].endswith('->active') for a in A) and SIG in held(lsu.get((e['_b'], e['_i'])))
-        # after the node left the tree
-        mp = must_pass(u, lambda x: is_call(x, 'iv_avl_tree_delete'))
-        okh = okh and bool(mp.get((e['_b'], e['_i'])))
-    dels = [e for e in u.events() if is_call(e, 'iv_avl_tree_delete')]
-    ins = [e for e in r.events() if is_call(e, 'iv_avl_tree_insert')]
-    trees = {canon(e['args'][0]) for e in dels} | {canon(e['args'][0]) for e in ins}
-    same = bool(dels) and bool(ins) and len(trees) == 1
-    ctx.ob('R-C10d', 'register/unregister:same-tree', same, loc=dels[0]['loc'] if dels else u.loc,
-           detail='the interest is inserted into and deleted from the same tree expression: %s' % sorted(trees), fn=u.q)
-    ht = {canon(e['args'][0]) for e in ho}
-    ctx.ob('R-C10d', 'unregister:hand-off-walks-own-tree', bool(ho) and ht == {canon(e['args'][0]) for e in dels}, loc=ho[0]['loc'] if ho else u.loc,
-           detail='the pending delivery is re-dispatched in the tree the interest was deleted from (%s), with the same signal number' % sorted(ht), fn=u.q)
-    ctx.ob('R-C10d', 'unregister:hand-off-same-signal', bool(ho) and all(last_member(e['args'][1]) == ('iv_signal', 'signum') for e in ho), loc=ho[0]['loc'] if ho else u.loc,
-           detail='... for this interest\'s own signal number', fn=u.q)
-    ctx.ob('R-C10d', 'unregister:exclusive-hand-off', okh, loc=ho[0]['loc'] if ho else u.loc,
-           detail='a delivery noted for an exclusive interest that is being unregistered is handed to the next interest: re-wake on '
-                  '(exclusive && active), after the tree delete, inside the lock region', fn=u.q)
+# --------------------------------------------------------------------------
+# R-C10d: register / unregister
+# --------------------------------------------------------------------------
+
+@guarded
+def disposition(ctx, sig):
+    sig.need()
+    counts = sig.g_counts[0]['name']
+    # ---- model worlds: register -----------------------------------------------------------------------------------
+    ag = Agg(ctx, 'R-C10d', sig.reg.loc, sig.reg.q)
+    for fl, count0, owner, thr in itertools.product((0, EXCL, THIS_THREAD, THIS_THREAD | EXCL), (0, 1, 2), (0, PID, PID + 1), (True, False)):
+        if not thr and fl & THIS_THREAD:
+            continue
+        m, x, end = sig.run_register(fl, count0, owner, thr)
+        d = 'interest flags %d, %d interests for the signal, owner pid %s%s' % (fl, count0, {0: 'unset', PID: 'this process'}.get(owner, 'another process (forked)'),
+                                                                                  '' if thr else ', no thread state')
+        eff0 = 0 if owner == PID + 1 else count0
+        sa = [t for t in m.trace if t['t'] == 'sigaction' and t['sig'] == S and t['handler'] != 0]
+        ag.check('register:install-on-0-to-1', len(sa) == (1 if eff0 == 0 else 0), d,
+                 '%d sigaction(%d, handler) calls with %d interests registered before' % (len(sa), S, eff0))
+        for t in sa:
+            ag.check('register:handler-value', t['handler'] == ('fn', sig.handler.q), d, 'installs %r' % (t['handler'],))
+            ag.check('register:handler-runs-with-signals-blocked', t['mask'] == 'ALL', d, 'sa_mask is %r: the handler must run with all signals blocked '
+                     '(the model assumed by R-C10c / C14)' % (t['mask'],))
+            ag.check('register:disposition-under-lock', m.a_lock in t['held'], d, 'sigaction outside the lock region')
+        cst = [t for t in m.trace if t['t'] == 'store' and (t['oid'], t['off']) == sig.count_cell(m, S)]
+        after = sig.get_count(m, S)
+        ag.check('register:count-incremented', end[0] == 'ret' and after == eff0 + 1, d, 'count %r -> %r' % (eff0, after))
+        ag.check('register:count-under-lock', all(m.a_lock in t['held'] and t['blocked'] == 'ALL' for t in cst), d, 'count written without the lock')
+        want_tree = m.a_ttree if fl & THIS_THREAD else m.a_ptree
+        ins = [t for t in m.trace if t['t'] == 'insert']
+        ag.check('register:inserted-into-own-tree', len(ins) == 1 and ins[0]['obj'] == x and ins[0]['tree'] == want_tree and m.a_lock in ins[0]['held'], d,
+                 'insertions: %s; expected the %s tree, under the lock' % ([(t['tree'] == m.a_ptree and 'process' or 'thread', t['obj'] == x) for t in ins],
+                                                                          'thread' if fl & THIS_THREAD else 'process'))
+        er = [t for t in m.trace if t['t'] == 'ev-register' and t['obj'] == x]
+        ag.check('register:event-wired', len(er) == 1 and not er[0]['misaligned'] and er[0]['evh'] == ('fn', sig.eventfn.q) and er[0]['evc'] not in (0, UNK), d,
+                 'the raw event embedded in the interest is registered %d times, handler %r cookie %r' % (len(er), er and er[0].get('evh'), er and er[0].get('evc')))
+        ag.check('register:owner-pid-claimed', m.read(*m.a_owner) == PID, d, 'owner pid is %r after registration: the handler would ignore deliveries' % (m.read(*m.a_owner),))
+        if owner == PID + 1:
+            roots_ok = all(o == x for o in _reachable(m, m.a_ptree)) and (not thr or all(o == x for o in _reachable(m, m.a_ttree)))
+            ag.check('register:child-starts-empty', roots_ok and sig.get_count(m, 3) == 0, d,
+                     'after a fork the parent\'s interests/counts survive the first registration in the child')
+        ag.check('register:lock-region-closed', end == ('ret', 0) and not m.held and m.blocked == 'NONE', d,
+                 'returns %r holding %d locks, mask %s' % (end, len(m.held), m.blocked))
+    m, x, end = sig.run_register(0, 0, PID, True, signum=-1)
+    m, x, end = sig.run_register(0, 0, PID, True, signum=sig.nsig)
+    ag.check('register:range-checked', end[0] == 'ret' and end[1] != 0 and not [t for t in m.trace if t['t'] in ('oob', 'insert', 'sigaction')], 'signal number %d' % sig.nsig,
+             'accepted (result %r)' % (end,))
+    ag.emit({'register:install-on-0-to-1': 'sigaction(library handler) exactly when the per-signal count was 0 before',
+             'register:handler-value': 'the installed disposition is the library handler',
+             'register:handler-runs-with-signals-blocked': 'sa_mask is full',
+             'register:disposition-under-lock': 'sigaction inside the lock region',
+             'register:count-incremented': 'count + 1',
+             'register:count-under-lock': 'the count changes under the lock with signals blocked',
+             'register:inserted-into-own-tree': 'the interest enters the tree its flags select (this thread / process), once, under the lock',
+             'register:event-wired': 'the raw event of the interest is registered once, carrying the library\'s event handler and a cookie (what they do: R-C10b)',
+             'register:owner-pid-claimed': 'the owner pid is this process afterwards',
+             'register:child-starts-empty': 'first registration after a fork resets the inherited state',
+             'register:lock-region-closed': 'returns 0 with the lock released and the mask restored',
+             'register:range-checked': 'out-of-range signal numbers are refused'})
+    # ---- model worlds: unregister ------------------------------------------------------------------------------------
+    ag = Agg(ctx, 'R-C10d', sig.unreg.loc, sig.unreg.q)
+    T = THIS_THREAD
+    variants = {'last interest of the signal': ([(S + 1, 0)], [(S - 1, T)], 0),
+                'the only other interest of the signal belongs to another thread': ([(S + 1, 0)], [(S - 1, T)], 1),
+                'one shared process-wide interest remains': ([(S, 0)], [(S, T)], 0),
+                'an exclusive and a shared interest remain': ([(S, EXCL), (S, 0), (S + 1, 0)], [(S, T | EXCL), (S, T), (S + 1, T)], 0),
+                'two shared interests remain': ([(S - 1, 0), (S, 0), (S, 0)], [(S, T), (S, T)], 0)}
+    deltas = set()
+    for fl, act, (vname, (lp, lt, elsewhere)) in itertools.product((0, EXCL, T, T | EXCL), (0, 1), sorted(variants.items())):
+        m = sig.machine(owner=PID)
+        x = m.interest(S, fl, active=act, name='X')
+        po = [m.interest(s_, f_) for (s_, f_) in lp]
+        to = [m.interest(s_, f_) for (s_, f_) in lt]
+        own, own_addr = (to, m.a_ttree) if fl & T else (po, m.a_ptree)
+        own.append(x)
+        po.sort(key=m.refkey)
+        to.sort(key=m.refkey)
+        m.link(m.a_ptree, po)
+        m.link(m.a_ttree, to)
+        count0 = sum(1 for o in po + to if m.mem[(o, m.o_signum)] == S) + elsewhere
+        sig.set_count(m, S, count0)
+        sig.set_count(m, S + 1, 1)
+        key = lambda o: (m.mem[(o, m.o_signum)], m.mem[(o, m.o_flags)])
+        rest = [o for o in own if o != x]
+        exp = h10.dispatch_spec(rest, key, S) if (fl & EXCL and act and count0 > 1) else []
+        end = sig.execute(m, sig.unreg, [('p', x, 0)], 'iv_signal_unregister')
+        d = 'interest flags %d active %d, %s' % (fl, act, vname)
+        dl = [t for t in m.trace if t['t'] == 'delete']
+        ag.check('unregister:deleted-from-own-tree', len(dl) == 1 and dl[0]['obj'] == x and dl[0]['tree'] == own_addr and m.a_lock in dl[0]['held'], d,
+                 'deletions: %s; expected the %s tree, under the lock' % ([(t['tree'] == m.a_ptree and 'process' or 'thread', t['obj'] == x) for t in dl],
+                                                                         'thread' if fl & T else 'process'))
+        sa = [t for t in m.trace if t['t'] == 'sigaction']
+        dfl = [t for t in sa if t['sig'] == S and t['handler'] == 0]
+        ag.check('unregister:default-on-1-to-0', len(sa) == len(dfl) == (1 if count0 == 1 else 0) and all(m.a_lock in t['held'] for t in sa), d,
+                 '%d sigaction calls (%d restoring SIG_DFL for signal %d) with %d interests before' % (len(sa), len(dfl), S, count0))
+        after = sig.get_count(m, S)
+        deltas.add(after - count0 if isinstance(after, int) else after)
+        cst = [t for t in m.trace if t['t'] == 'store' and (t['oid'], t['off']) == sig.count_cell(m, S)]
+        ag.check('unregister:count-decremented-under-lock', after == count0 - 1 and all(m.a_lock in t['held'] and t['blocked'] == 'ALL' for t in cst)
+                 and sig.get_count(m, S + 1) == 1, d, 'count %r -> %r' % (count0, after))
+        posts = [t for t in m.trace if t['t'] == 'post']
+        posted = [t['obj'] for t in posts]
+        ag.check('unregister:exclusive-hand-off', end[0] != 'loop' and set(exp) <= set(posted) and (exp or not posted), d,
+                 'woken %s, %s' % (names(m, posted), ('the pending delivery must be handed to %s' % names(m, exp)) if exp else 'nothing is pending for another interest'))
+        if posted:
+            ag.check('unregister:hand-off-walks-own-tree', all(o in rest for o in posted), d,
+                     'woken %s; the interest was deleted from the %s tree %s' % (names(m, posted), 'thread' if fl & T else 'process', names(m, rest)))
+            ag.check('unregister:hand-off-same-signal', all(key(o)[0] == S for o in posted), d, 'woken %s for signal %d' % (names(m, posted), S))
+            ag.check('unregister:hand-off-fan-out', posted == exp, d, 'woken %s, documented fan-out is %s' % (names(m, posted), names(m, exp)))
+            ag.check('unregister:hand-off-after-delete-in-lock-region', all(dl and t['seq'] > dl[0]['seq'] and m.a_lock in t['held'] and t['active'] == 1 for t in posts), d,
+                     'a re-dispatch before the delete, outside the lock, or without marking active')
+        ag.check('unregister:lock-region-closed', end[0] == 'ret' and not m.held and m.blocked == 'NONE', d, 'ends %r holding %d locks, mask %s' % (end[0], len(m.held), m.blocked))
+    ag.check('count:balanced', deltas == {-1}, '', 'register adds 1, unregister changes the same cell by %s' % sorted(deltas, key=str))
+    ag.emit({'unregister:deleted-from-own-tree': 'the interest leaves the tree its flags select, once, under the lock',
+             'unregister:default-on-1-to-0': 'SIG_DFL is restored exactly when the count drops to 0',
+             'unregister:count-decremented-under-lock': 'count - 1 under the lock, other signals untouched',
+             'unregister:exclusive-hand-off': 'a delivery noted for an exclusive interest that is being unregistered is handed to the next interest, and only then',
+             'unregister:hand-off-walks-own-tree': 'the pending delivery is re-dispatched in the tree the interest was deleted from',
+             'unregister:hand-off-same-signal': '... for this interest\'s own signal number',
+             'unregister:hand-off-fan-out': '... with the documented fan-out',
+             'unregister:hand-off-after-delete-in-lock-region': '... after the tree delete, inside the lock region, marking active',
+             'unregister:lock-region-closed': 'lock released and mask restored at return',
+             'count:balanced': 'one increment in register, one decrement in unregister, of the same cell'})
+    # ---- path properties (every helper of the file inlined) -------------------------------------------------
+    for f in (sig.reg, sig.unreg):
+        g = sig.inline(f)
+        ls = locksets(g)
+        cs = [e for e in g.events() if e['ev'] == 'store' and h10.store_root(g, e['lhs']) == counts]
+        for loc, evs in sorted(by_loc(cs).items()):
+            ctx.ob('R-C10d', '%s:count-under-lock' % f.name, all(sig.lock_name in held(ls.get((e['_b'], e['_i']))) for e in evs), loc=loc,
+                   detail='the count changes under the signal lock on every path', fn=f.q)
+        sa = [e for e in g.events() if is_call(e, 'sigaction') and e['ev'] == 'call']
+        if sa:
+            ctx.ob('R-C10d', '%s:disposition-under-lock' % f.name, all(sig.lock_name in held(ls.get((e['_b'], e['_i']))) for e in sa), loc=sa[0]['loc'],
+                   detail='the disposition changes inside the lock region (a racing register/unregister cannot interleave)', fn=f.q)
+    g = sig.inline(sig.unreg)
+    ls = locksets(g)
+    posts = [e for e in g.events() if is_call(e, 'iv_event_raw_post') and e['ev'] == 'call']
+    mp = must_pass(g, lambda x: is_call(x, 'iv_avl_tree_delete') and x['ev'] == 'call')
+    if posts:
+        ctx.ob('R-C10d', 'unregister:hand-off-after-delete-under-lock',
+               all(mp.get((e['_b'], e['_i'])) and sig.lock_name in held(ls.get((e['_b'], e['_i']))) for e in posts), loc=posts[0]['loc'],
+               detail='the re-dispatch happens after the interest left the tree, inside the lock region, on every path', fn=sig.unreg.q)
 
 
-def fork(ctx):
+def _reachable(m, tree):
+    """interest objects reachable from the root pointer of the tree object"""
+    out = []
+    st = [m.read(tree[0], tree[1] + m.t_root)]
+    while st:
+        p = st.pop()
+        if not h10.is_ptr(p) or p[1] in out:
+            continue
+        out.append(p[1])
+        st.append(m.mem.get((p[1], m.o_an + m.n_left), 0))
+        st.append(m.mem.get((p[1], m.o_an + m.n_right), 0))
+    return out
+
+
+# --------------------------------------------------------------------------
+# R-C10e: fork
+# --------------------------------------------------------------------------
+
+@guarded
+def fork(ctx, sig):
     prog = ctx.prog
     s = prog.fn('iv_wait_interest_register_spawn')
-    user = [e for e in s.events() if e['ev'] == 'call' and 'fnexpr' in e and (callback_kind(e) or ('', ''))[0] == 'param']
+    rs = sig.find_reset()
+    g = Inliner(prog, stop=lambda t: t.q == rs.q or (prog.unit_of(t) != prog.unit_of(s) and t.file.endswith('.c'))).inline(s)
+    user = [e for e in g.events() if e['ev'] == 'call' and 'fnexpr' in e and (callback_kind(e) or ('', ''))[0] == 'param']
     if not user:
         raise AnalysisBroken('spawn helper: call of the user function not found')
-    mp = must_pass(s, lambda e: is_call(e, 'iv_signal_child_reset_postfork'))
-    ctx.ob('R-C10e', 'spawn:child-reset-before-user-code', all(mp.get((e['_b'], e['_i'])) for e in user), loc=user[0]['loc'],
-           detail='iv_signal_child_reset_postfork() precedes the user function in the child arm', fn=s.q)
-    hd = holding(s)
-    A = hd.get((user[0]['_b'], user[0]['_i']), frozenset())
-    ctx.ob('R-C10e', 'spawn:user-code-only-in-child', any(a[0] == '==' and a[2] == '0' and all(k[0] == 'var' for k in a[3]) for a in A), loc=user[0]['loc'],
-           detail='the user function runs only on the fork() == 0 edge', fn=s.q)
-    rst = prog.fn('iv_signal_child_reset_postfork')
-    z = must_pass(rst, lambda e: e['ev'] == 'store' and canon(e['lhs']) == 'sig_owner_pid' and canon(e.get('rhs')) == '0')
-    ctx.ob('R-C10e', 'reset:owner-pid-cleared', bool(z.get((rst.exit, 0))), loc=rst.loc,
-           detail='sig_owner_pid = 0: the parent\'s handlers never fire in the child', fn=rst.q)
-    clears = {'process tree': lambda e: e['ev'] == 'store' and canon(e['lhs']) == 'process_sigs.root' and canon(e.get('rhs')) in ('NULL', '0'),
-              'per-signal counts': lambda e: e['ev'] == 'store' and canon(e['lhs']).startswith('total_num_interests[') and canon(e.get('rhs')) == '0'}
-    for what, pred in sorted(clears.items()):
-        ev = [e for e in rst.events() if pred(e)]
-        ctx.ob('R-C10e', 'reset:%s-cleared' % what.replace(' ', '-'), bool(ev), loc=ev[0]['loc'] if ev else rst.loc,
-               detail='the child starts with an empty %s' % what, fn=rst.q)
-    thr = [e for e in rst.events() if e['ev'] == 'store' and last_member(strip(e['lhs']).get('base')) == ('iv_signal_thr_info', 'thr_sigs')
-           and canon(e['lhs']).endswith('.root') and canon(e.get('rhs')) in ('NULL', '0')]
-    # on the "this thread has an area" edge the per-thread tree is emptied on every path
-    okt = False
-    for b, blk in rst.blocks.items():
-        if blk.term and blk.term.get('cond') is not None and len(blk.succ) == 2:
-            for si in (0, 1):
-                for (op, lc, rc, l, r) in norm_cond(blk.term['cond'], si == 0):
-                    if op == '!=' and rc == '0' and strip(l).get('record') == 'iv_signal_thr_info':
-                        mp = must_pass_from_block(rst, blk.succ[si], lambda e: e in thr)
-                        okt = bool(mp.get((rst.exit, 0)))
-    ctx.ob('R-C10e', 'reset:per-thread-tree-cleared', bool(thr) and okt, loc=thr[0]['loc'] if thr else rst.loc,
-           detail='the calling thread\'s own interest tree is emptied too (a child forked from a thread with this-thread interests would '
-                  'otherwise dispatch to the parent\'s stale interests)', fn=rst.q)
-    pre, par, chi = prog.fn('iv_signal_prepare'), prog.fn('iv_signal_parent'), prog.fn('iv_signal_child')
-    okb = bool(must_pass(pre, lambda e: is_call(e, 'spin_lock_sigmask') and canon(e['args'][0]) == '&sig_lock').get((pre.exit, 0))) \
-        and bool(must_pass(par, lambda e: is_call(e, 'spin_unlock_sigmask') and canon(e['args'][0]) == '&sig_lock').get((par.exit, 0))) \
-        and bool(must_pass(chi, lambda e: is_call(e, 'spin_init') and canon(e['args'][0]) == '&sig_lock').get((chi.exit, 0))) \
-        and bool(must_pass(chi, lambda e: is_call(e, 'pthr_sigmask')).get((chi.exit, 0)))
-    reg = [e for fn in prog.all_funcs() for e in fn.events() if is_call(e, 'pthr_atfork')]
-    okr = bool(reg) and all([canon(a) for a in e['args']] == ['iv_signal_prepare', 'iv_signal_parent', 'iv_signal_child'] for e in reg)
-    ctx.ob('R-C10e', 'atfork:lock-bracket', okb and okr, loc=pre.loc,
-           detail='prepare takes sig_lock with signals blocked, parent releases it, child re-initialises it and restores the mask', fn=pre.q)
-    null_rule(ctx, 'R-C10g', ('iv_signal.c',))
+    mp = must_pass(g, lambda e: is_call(e, rs.name) and e['ev'] == 'call')
+    hd = holding_exprs(g)
+    for loc, evs in sorted(by_loc(user).items()):
+        ctx.ob('R-C10e', 'spawn:child-reset-before-user-code', all(mp.get((e['_b'], e['_i'])) for e in evs), loc=loc,
+               detail='%s() precedes the user function in the child arm' % rs.name, fn=s.q)
+        ok = all(known_zero(g, hd.get((e['_b'], e['_i']), ()), ('fork', 'vfork')) for e in evs)
+        ctx.ob('R-C10e', 'spawn:user-code-only-in-child', ok, loc=loc, detail='the user function runs only on the fork() == 0 edge', fn=s.q)
+    sig.need()
+    rst = sig.reset
+    ag = Agg(ctx, 'R-C10e', rst.loc, rst.q)
+    T = THIS_THREAD
+    for thr in (True, False):
+        for owner in (PID, PID + 1):
+            m = sig.machine(owner=owner, thr=thr)
+            po = [m.interest(S, 0), m.interest(S + 1, EXCL)]
+            m.link(m.a_ptree, po)
+            if thr:
+                to = [m.interest(S, T)]
+                m.link(m.a_ttree, to)
+            sig.set_count(m, S, 2 if thr else 1)
+            sig.set_count(m, S + 1, 1)
+            sig.set_count(m, sig.nsig - 1, 1)
+            sig.set_count(m, 0, 1)
+            end = sig.execute(m, rst, [], 'iv_signal_child_reset_postfork')
+            d = 'child of a thread %s this-thread interests' % ('with' if thr else 'without state for')
+            ag.check('reset:owner-pid-cleared', end[0] == 'ret' and m.read(*m.a_owner) == 0, d, 'owner pid is %r: the parent\'s handlers would fire in the child' % (m.read(*m.a_owner),))
+            ag.check('reset:process-tree-cleared', not _reachable(m, m.a_ptree), d, 'the child starts with the parent\'s process-wide interests')
+            left = [i for i in range(sig.nsig) if sig.get_count(m, i) != 0]
+            ag.check('reset:per-signal-counts-cleared', not left, d, 'counts left for signals %s' % left[:5])
+            if thr:
+                ag.check('reset:per-thread-tree-cleared', not _reachable(m, m.a_ttree), d,
+                         'the calling thread\'s own interest tree is not emptied (a child forked from a thread with this-thread interests would '
+                         'dispatch to the parent\'s stale interests)')
+    ag.emit({'reset:owner-pid-cleared': 'the owner pid is 0 afterwards: the parent\'s handlers never fire in the child',
+             'reset:process-tree-cleared': 'the child starts with an empty process tree',
+             'reset:per-signal-counts-cleared': 'the child starts with zero counts for every signal',
+             'reset:per-thread-tree-cleared': 'the calling thread\'s own interest tree is emptied too'})
+    if len(sig.atfork) != 1:
+        raise AnalysisBroken('pthr_atfork is called at %d sites of %s' % (len(sig.atfork), sig.unit))
+    af, ae = sig.atfork[0]
+    hooks = []
+    for a in ae['args']:
+        a = strip(a)
+        if isinstance(a, dict) and a.get('k') == 'addr':
+            a = strip(a['e'])
+        h = prog.resolve(sig.unit, a['name']) if isinstance(a, dict) and a.get('k') == 'var' and a.get('vk') == 'func' else None
+        hooks.append(h)
+    ok = len(hooks) == 3 and all(h is not None and h.blocks for h in hooks)
+    detail = 'prepare takes the signal lock with signals blocked, parent releases it, child re-initialises it and restores the mask'
+    if ok:
+        pre, par, chi = hooks
+        for who, second in (('parent', par), ('child', chi)):
+            m = sig.machine(blocked='NONE')
+            e1 = sig.execute(m, pre, [], 'atfork prepare hook')
+            mid = (m.a_lock in m.held, m.blocked)
+            e2 = sig.execute(m, second, [], 'atfork %s hook' % who)
+            inits = [t for t in m.trace if t['t'] == 'lock-init' and t['lock'] == m.a_lock]
+            good = e1[0] == 'ret' and e2[0] == 'ret' and mid == (True, 'ALL') and m.a_lock not in m.held and m.blocked == 'NONE' \
+                and (who == 'parent' or bool(inits))
+            if not good:
+                ok = False
+                detail += '; %s side: after prepare lock held=%s mask=%s, after %s lock held=%s mask=%s%s' % (
+                    who, mid[0], mid[1], who, m.a_lock in m.held, m.blocked, '' if who == 'parent' or inits else ', lock not re-initialised')
+    ctx.ob('R-C10e', 'atfork:lock-bracket', ok, loc=ae['loc'], detail=detail, fn=af.q)
+
+
+@guarded
+def nulls(ctx, sig):
+    null_rule(ctx, 'R-C10g', (sig.need().unit,))
+
+
+def holding_exprs(fn):
+    """{point: atoms (op, lc, rc, l, r)} of the conditional edges (if / && / || / switch case) that dominate the point and
+    whose operands were not written since (forward must-analysis; atoms keep their expression trees so that they can be
+    matched by structure, not by spelling)"""
+    from ..core import forward
+    def keys(x):
+        return {y['name'] for y in walk(x) if y.get('k') == 'var'}
+    def tr(e, S_):
+        if e['ev'] == 'store' and S_:
+            l = strip(e['lhs'])
+            nm = l['name'] if isinstance(l, dict) and l.get('k') == 'var' else h10.global_root(e['lhs'])
+            if nm is not None:
+                return frozenset(a for a in S_ if nm not in a[5])
+        elif e['ev'] == 'call' and S_:
+            ks = set()
+            for a in e.get('args', []):
+                a = strip(a)
+                if isinstance(a, dict) and a.get('k') == 'addr' and isinstance(strip(a['e']), dict) and strip(a['e']).get('k') == 'var':
+                    ks.add(strip(a['e'])['name'])
+            if ks:
+                return frozenset(a for a in S_ if not (ks & a[5]))
+        return S_
+    def edge(blk, si, S_):
+        if not blk.term or blk.term.get('cond') is None or len(blk.succ) < 2 or blk.term.get('cls') == 'MethodDispatch':
+            return S_
+        c = blk.term['cond']
+        add = set()
+        if blk.term.get('cls') == 'SwitchStmt':
+            cases = blk.term.get('cases', [])
+            tgt = blk.succ[si]
+            mine = [cv for i, cv in enumerate(cases) if i < len(blk.succ) and blk.succ[i] == tgt]
+            if len(mine) == 1 and isinstance(mine[0], int):
+                v = {'k': 'int', 'v': mine[0]}
+                add.add(('==', canon(c), str(mine[0]), _freeze(c), _freeze(v), frozenset(keys(c))))
+            return S_ | frozenset(add)
+        if len(blk.succ) != 2:
+            return S_
+        for (op, lc, rc, l, r) in norm_cond(c, si == 0):
+            if op != 'const':
+                add.add((op, lc, rc, _freeze(l), _freeze(r), frozenset(keys(l) | keys(r))))
+        return S_ | frozenset(add)
+    _, ev_in = forward(fn, frozenset(), tr, lambda a, b: a & b, edge=edge)
+    return {k: [(a[0], a[1], a[2], _thaw(a[3]), _thaw(a[4])) for a in v] for k, v in ev_in.items()}
+
+
+def known_zero(fn, atoms, names):
+    """the atoms pin a value obtained from one of the calls `names` to 0"""
+    lo = hi = False
+    for (op, lc, rc, l, r) in atoms:
+        if rc != '0' or not h10.value_is_call(fn, l, names):
+            continue
+        if op == '==':
+            return True
+        lo = lo or op == '>='
+        hi = hi or op == '<='
+    return lo and hi
+
+
+def _freeze(x):
+    import json
+    return json.dumps(x, sort_keys=True, default=str) if isinstance(x, (dict, list)) else x
+
+
+def _thaw(x):
+    import json
+    if isinstance(x, str) and x[:1] in '{[':
+        try:
+            return json.loads(x)
+        except ValueError:
+            return x
+    return x
+
+
+# --------------------------------------------------------------------------
+# the model worlds must exercise the code they speak about
+# --------------------------------------------------------------------------
+
+@guarded
+def coverage(ctx, sig):
+    sig.need()
+    handler_worlds(sig)
+    ent = {q for q in sig.entered if q in ctx.prog.funcs and ctx.prog.unit_of(ctx.prog.funcs[q]) == sig.unit}
+    miss = h10.uncovered(ctx.prog, sig.cover, ent)
+    if miss:
+        raise AnalysisBroken('the model worlds do not reach %d effectful blocks of %s (first: %s at %s): the behavioural obligations '
+                             'do not speak about that code' % (len(miss), sig.unit, describe(miss[0][1]), miss[0][1].get('loc')))
